@@ -355,6 +355,7 @@ impl World {
             }
             if site == Site::Bind
                 && self.sc.faults.addr_in_use_pm > 0
+                && self.round_idx >= self.sc.faults.addr_in_use_from_round
                 && sock.is_some_and(|s| self.socks[s].kind == SockKind::Stream)
                 && self.tape.chance(self.sc.faults.addr_in_use_pm)
             {
